@@ -173,6 +173,25 @@ def ensure_lean():
         return res
 
 
+def ensure_leanchecker():
+    """Independent re-check of the compiled library with `leanchecker` (thorough tier), cached by source hash."""
+    with Lock("leanchecker"):
+        h = lean_hash()
+        cache = os.path.join(BUILD, "leanchecker.json")
+        if os.path.exists(cache):
+            try:
+                c = json.load(open(cache))
+                if c.get("hash") == h:
+                    return c
+            except Exception:
+                pass
+        t0 = time.time()
+        rc, out = sh("lake env leanchecker Lox", cwd=LEAN, timeout=4 * 3600)
+        res = {"hash": h, "ok": rc == 0, "log": out[-3000:], "wall_s": round(time.time() - t0, 1)}
+        json.dump(res, open(cache, "w"), indent=1)
+        return res
+
+
 class Run:
     """One invocation of a check."""
 
@@ -202,6 +221,9 @@ class Run:
             self.obligations.append(("lean-build", False, (self.lean.get("forbidden") or [self.lean["log"][-1500:]])))
             return False
         names = self.lean["theorems"].get(self.prop, [])
+        if self.tier == "thorough" and os.environ.get("VERIF_SKIP_LEANCHECKER") != "1":
+            lc = ensure_leanchecker()
+            self.obligations.append(("leanchecker: independent re-check of every compiled module of the library", lc["ok"], lc["log"][-600:] if not lc["ok"] else "ok in %ss" % lc.get("wall_s")))
         ok_all = len(names) >= minimum
         if len(names) < minimum:
             self.obligations.append(("theorems-present", False, "expected >= %d property theorems, found %d" % (minimum, len(names))))
